@@ -564,6 +564,89 @@ impl PendingEntryList {
     }
 }
 
+#[cfg(feature = "verif-hooks")]
+impl ConsumerGroup {
+    /// Check that the pending indexes and all counters agree with each other
+    pub fn verif_check_consistency(&self) -> std::result::Result<(), String> {
+        let pending = self.pending.read().unwrap();
+        let consumers = self.consumers.read().unwrap();
+        let mut per_consumer: HashMap<String, usize> = HashMap::new();
+        for (id, e) in pending.entries_by_id.iter() {
+            if e.id != *id {
+                return Err(format!("group {}: entry keyed {} carries id {}", self.name, id, e.id));
+            }
+            *per_consumer.entry(e.consumer.clone()).or_insert(0) += 1;
+            match pending.entries_by_consumer.get(&e.consumer) {
+                Some(v) if v.iter().filter(|x| **x == *id).count() == 1 => {}
+                Some(v) => return Err(format!("group {}: id {} appears {} times in consumer index of {}",
+                    self.name, id, v.iter().filter(|x| **x == *id).count(), e.consumer)),
+                None => return Err(format!("group {}: id {} owned by {} missing from consumer index", self.name, id, e.consumer)),
+            }
+        }
+        for (c, ids) in pending.entries_by_consumer.iter() {
+            if ids.is_empty() {
+                return Err(format!("group {}: empty consumer index entry for {}", self.name, c));
+            }
+            for id in ids {
+                match pending.entries_by_id.get(id) {
+                    Some(e) if e.consumer == *c => {}
+                    Some(e) => return Err(format!("group {}: consumer index of {} lists id {} owned by {}", self.name, c, id, e.consumer)),
+                    None => return Err(format!("group {}: consumer index of {} lists id {} which is not pending", self.name, c, id)),
+                }
+            }
+        }
+        for (name, c) in consumers.iter() {
+            let actual = per_consumer.get(name).cloned().unwrap_or(0);
+            if c.pending_count != actual {
+                return Err(format!("group {}: consumer {} pending_count {} but owns {} pending entries", self.name, name, c.pending_count, actual));
+            }
+        }
+        for (name, n) in per_consumer.iter() {
+            if !consumers.contains_key(name) {
+                return Err(format!("group {}: {} pending entries owned by unknown consumer {}", self.name, n, name));
+            }
+        }
+        let total = *self.total_pending.lock().unwrap();
+        if total != pending.entries_by_id.len() {
+            return Err(format!("group {}: total_pending {} but {} pending entries", self.name, total, pending.entries_by_id.len()));
+        }
+        let count = *self.consumer_count.lock().unwrap();
+        if count != consumers.len() {
+            return Err(format!("group {}: consumer_count {} but {} consumers", self.name, count, consumers.len()));
+        }
+        let min = pending.entries_by_id.keys().next().cloned();
+        let max = pending.entries_by_id.keys().next_back().cloned();
+        if pending.min_pending_id != min || pending.max_pending_id != max {
+            return Err(format!("group {}: bounds {:?}..{:?} but entries span {:?}..{:?}", self.name,
+                pending.min_pending_id, pending.max_pending_id, min, max));
+        }
+        Ok(())
+    }
+    
+    /// Canonical text of the group's state (ids with millis >= ms_base printed relative to it)
+    pub fn verif_dump(&self, ms_base: u64) -> String {
+        let rel = |id: &StreamId| if id.millis() >= ms_base && ms_base > 0 {
+            format!("T+{}-{}", id.millis() - ms_base, id.seq())
+        } else {
+            format!("{}-{}", id.millis(), id.seq())
+        };
+        let pending = self.pending.read().unwrap();
+        let consumers = self.consumers.read().unwrap();
+        let mut out = format!("group {:?} cursor={} pel=[", self.name, rel(&self.last_delivered_id.lock().unwrap()));
+        for (id, e) in pending.entries_by_id.iter() {
+            out.push_str(&format!("({} {:?} n={})", rel(id), e.consumer, e.delivery_count));
+        }
+        out.push_str("] consumers=[");
+        let mut names: Vec<&String> = consumers.keys().collect();
+        names.sort();
+        for n in names {
+            out.push_str(&format!("({:?} pending={})", n, consumers[n].pending_count));
+        }
+        out.push_str(&format!("] total={}", *self.total_pending.lock().unwrap()));
+        out
+    }
+}
+
 /// Manager for all consumer groups of a stream
 #[derive(Debug)]
 pub struct ConsumerGroupManager {
